@@ -24,22 +24,38 @@ def parts(tier, rng):
     for p in SC.make_parts(tier, rng, {16}):
         p.name = "busy-sink-" + p.name
         out.append(p)
+    # "nor stops making progress": a streamed PUBLISH must be flagged for the in-flight limiter whatever piece of
+    # its payload came with the header, otherwise its chunks wait for the slot its own handler holds
+    import gen_codec3 as G3
+    import gen_codec5 as G5
+    from props import C12 as LIM
+    n3 = 40 if tier == "quick" else 400
+    out.append(LIM.SizedPart("limiter-view-v3", "sized3", G3.gen_dec_valid(rng, n3) + G3.gen_dec_payload(rng, n3),
+                             rule="valid v3 streams x cut sets x min_chunk: SizedRequest of every decoded item"))
+    out.append(LIM.SizedPart("limiter-view-v5", "sized5", G5.dec5_valid(rng, n3 * 4),
+                             rule="valid v5 streams x cut sets x min_chunk: SizedRequest of every decoded item"))
     return out
 
 
 def replay_parts(rp):
+    if rp.get("engine", "").startswith("sized"):
+        from props import C12 as LIM
+        return [LIM.SizedPart("replay", rp["engine"], [rp["case"]], shards=1)]
     if rp.get("engine", "").startswith("sink"):
         return SC.replay_parts(rp, {16})
     return B.replay_parts(rp, WANT)
 
 
 def known_signature(part, case, impl_obs, oracle):
-    if isinstance(part, SC.SinkPart):
+    if isinstance(part, SC.SinkPart) or part.engine.startswith("sized"):
         return None
     return B.known_signature(part, case, impl_obs, oracle)
 
 
 def clause_text(part, oracle):
+    if part.engine.startswith("sized"):
+        from props import C12 as LIM
+        return LIM.clause_text(part, oracle)
     if isinstance(part, SC.SinkPart):
         return SC.clause_text(part, oracle)
     return B.clause_text(part, oracle)
